@@ -51,7 +51,7 @@ let () =
             | _ -> acc) 0 toks in
         let allowance = 16 * String.length case + 16 * supplied + (if comp = "interop" then 16 * String.length obs else 0) + 20 * 1048576 in
         let orc = orc @ (match alloc with
-            | Some (peak, largest) when comp <> "amf0" || true -> if peak <= allowance && largest <= allowance then [] else ["C03.alloc_bounded", false]
+            | Some (peak, largest) when comp <> "amf0" || true -> if peak <= allowance && largest <= allowance then [] else ["C03.alloc_bounded", false; "C19.bounded_memory", false]
             | _ -> []) in
         let orc = orc @ (if contains "PANIC" obs then ["C03.never_panics", false] else [])
                       @ (if contains "HANG" obs then ["C03.never_hangs", false; "C19.never_hangs", false] else []) in
